@@ -93,7 +93,7 @@ def main():
     cov["states"] += comp["states"]
     cov["transitions"] += comp["transitions"]
     cov.update({k: v for k, v in comp.items() if k.startswith("posterior_")})
-    limit = 40 if ck.tier == "quick" else None
+    limit = 24 if ck.tier == "quick" else None
     jobs = sysrun.product_jobs(FACTORS, {"n_particles": 8}, ck.seed + 12, limit=limit, flags=FLAGS)
     for j in jobs:
         j["n_total"] = j["conf"].pop("_nt", 32)
@@ -106,6 +106,20 @@ def main():
     cov.update(sc)
     cov.update(sysrun.selftest(traces[0]))
     cov.update(termination_probe(ck))
+    # the postconditions also hold for resumed runs, including a resume that has nothing left to do (n_total already met)
+    from vlib import procs, psrun
+
+    rj = [dict(conf=c, seed=125 + i + 100 * ck.seed, label=f"c12resume#{i}", n_total=72, save_every=1, max_ckpt=2)
+          for i, c in enumerate([dict(clustering=False, evaluation="vector"), dict(clustering=True, sample="rwm")])]
+    rres = procs.run(sysrun.resume_job, rj, procs=len(rj), timeout=600)
+    rtr = []
+    for st_, r_ in rres:
+        if st_ != "ok":
+            raise RuntimeError("resume worker failed: " + str(r_)[:300])
+        rtr += r_
+    rfails, _rst = psrun.validate(rtr)
+    sysrun.attribute(ck, "C12", rtr, rfails)
+    cov["resumed_runs_validated"] = sum(1 for t in rtr if t["meta"].get("resumed"))
     cov.update({
         "traces_validated_against_impl": sc["system_runs"] + comp["replays"],
         "evaluations": sc["system_events_validated"] + comp["replays"],
